@@ -385,6 +385,15 @@ func (g *generator) publish(f *File) {
 	for _, m := range f.Messages {
 		g.msgTypes = append(g.msgTypes, f.Package+"."+m.Name)
 		g.typePkg[f.Package+"."+m.Name] = f.Package
+		// enums and messages nested in a top-level message can be referred to from elsewhere too
+		for _, e := range m.Enums {
+			g.enumTypes = append(g.enumTypes, f.Package+"."+m.Name+"."+e.Name)
+			g.typePkg[f.Package+"."+m.Name+"."+e.Name] = f.Package
+		}
+		for _, n := range m.Nested {
+			g.msgTypes = append(g.msgTypes, f.Package+"."+m.Name+"."+n.Name)
+			g.typePkg[f.Package+"."+m.Name+"."+n.Name] = f.Package
+		}
 	}
 	for _, e := range f.Enums {
 		g.enumTypes = append(g.enumTypes, f.Package+"."+e.Name)
@@ -437,6 +446,12 @@ func (g *generator) fillFile(f *File, optsFile *File) {
 		m := g.message(f.Package, f.Package+".", name, f.Syntax, 0)
 		f.Messages = append(f.Messages, m)
 		g.msgTypes = append(g.msgTypes, f.Package+"."+name)
+		for _, e := range m.Enums {
+			g.enumTypes = append(g.enumTypes, f.Package+"."+name+"."+e.Name)
+		}
+		for _, n := range m.Nested {
+			g.msgTypes = append(g.msgTypes, f.Package+"."+name+"."+n.Name)
+		}
 	}
 	if g.cfg.Groups && f.Syntax == "proto2" && len(f.Messages) > 0 && r.IntN(2) == 0 {
 		m := f.Messages[r.IntN(len(f.Messages))]
